@@ -600,5 +600,28 @@ func coveringDesigns() []DCase {
 		g.A.Meta = [][]string{{"openapi:generate", "false"}}
 		add(svc1("cov_example_excluded", &dg.Method{Name: "m", Payload: pa(dg.A(dg.Obj(g))), Result: pa(dg.A(dg.Obj(cloneFields([]*dg.Field{g}, nil)...))), HTTP: &dg.HTTPMap{Routes: rt("POST", "/m")}}))
 	}
+	// 29. Enum written with Go int / float literals on the ELEMENTS of arrays and maps of every numeric type
+	// (the example generator used to panic with reflect.Set for element types other than Int), in body, query, header
+	{
+		var b, q []*dg.Field
+		for _, p := range numericPrims {
+			var vals []any
+			if strings.HasPrefix(p, "Float") {
+				vals = []any{1.5, 2.5}
+			} else {
+				vals = []any{1, 2, 3}
+			}
+			e := dg.A(dg.Prim(p))
+			e.V = &dg.Validation{Enum: vals}
+			n := lc(p)
+			b = append(b, dg.F("arr_"+n, dg.ArrayOf(e)), dg.Req("arrr_"+n, dg.ArrayOf(e)), dg.F("map_"+n, dg.MapOf(dg.A(dg.Prim("String")), e)), dg.F("arrarr_"+n, dg.ArrayOf(dg.A(dg.ArrayOf(e)))))
+			q = append(q, dg.F("q_"+n, dg.ArrayOf(e)))
+		}
+		add(svc1("cov_enum_elements",
+			&dg.Method{Name: "body", Payload: pa(dg.A(dg.Obj(b...))), Result: pa(dg.A(dg.Obj(cloneFields(b, nil)...))), HTTP: &dg.HTTPMap{Routes: rt("POST", "/b")}},
+			&dg.Method{Name: "query", Payload: pa(dg.A(dg.Obj(q...))), HTTP: &dg.HTTPMap{Routes: rt("GET", "/q"), Params: mapAll(q, nil)}},
+			&dg.Method{Name: "header", Payload: pa(dg.A(dg.Obj(cloneFields(q, nil)...))), Result: pa(dg.A(dg.Obj(cloneFields(q, nil)...))),
+				HTTP: &dg.HTTPMap{Routes: rt("GET", "/h"), Headers: mapAll(q, hdrWire), Responses: []dg.Response{{Status: 200, Headers: mapAll(q, hdrWire)}}}}))
+	}
 	return out
 }
